@@ -554,7 +554,9 @@ def run(chk):
     # ---------------- 3d. the XML character data model (C17/XmlText.v): (i) the text and attribute value written by fn:serialize
     # = esc_text / esc_attr of the model (xml.etree: raw CR, &#09;; lxml: &#13;, &#9;); (ii) the model reader = the parser behind
     # fn:parse-xml on texts with literal characters, entity and character references (valid and invalid)
-    proved_x = chk.prove(['theories/C17/XmlText.v', 'theories/C17/XmlTextProofs.v'], 'theories/C17/XmlTextProperties.v')
+    import gen_c17
+    gen_c17.generate()
+    proved_x = chk.prove(['theories/Gen/C17Shape.v', 'theories/C17/XmlText.v', 'theories/C17/XmlTextProofs.v'], 'theories/C17/XmlTextProperties.v')
     ALPH = [0x26, 0x3c, 0x3e, 0x22, 0x27, 9, 10, 13, 0x20, 0x61, 0x31, 0xe9, 0x1f600, 0x85, 0x2028, 0x3b, 0x23, 0x5d]
     strs = [[rng.choice(ALPH) for _ in range(rng.randint(0, 6))] for _ in range(80 if quick else 3000)]
     strs += [[13, 10], [13], [0x5d, 0x5d, 0x3e], [0x26, 0x23, 0x31, 0x33, 0x3b], [9, 10, 13, 0x20]]
